@@ -96,6 +96,26 @@ def run(ctx):
                 "rule": "ints, dyadic floats, strings (empty, with ' and \", with spaces, digit strings), lists and tuples of "
                         "length != 1, nested up to depth 3 (bounded-exhaustive at depth <= 2, random at depth 3); "
                         "non-trivial = list or tuple value", "values": len(V)})
+    # exported functions with several outputs under every call mode: ProbLog must report exactly the Python results
+    # that agree with the bound output arguments
+    em = pl.run_jobs([("export_modes", {"uid": 1})], nproc=1, timeout=300)[0]
+    if em.get("error"):
+        raise tlc.MachineryError("export_modes failed: %s" % em)
+    nmodes = 0
+    for c in em["calls"]:
+        ctx.evaluations += 1
+        nmodes += 1
+        want = sorted(r for r in c["py"] if all(b is None or b == v for b, v in zip(c["bound"], r)))
+        desc = "%s(%s | outputs bound as %s): Python returns %s" % (c["f"], c["in"], c["bound"], c["py"])
+        sig = {"via": "export-modes", "function": c["f"], "outputs_bound": sum(1 for b in c["bound"] if b is not None),
+               "outputs": len(c["bound"])}
+        if c.get("crash"):
+            ctx.violation(dict(sig, clause="crash"), "%s; call raised %s" % (desc, c["crash"]), {"call": c})
+        elif c.get("err"):
+            ctx.violation(dict(sig, clause="call-raised-error"), "%s; call raised %s" % (desc, c["err"]), {"call": c})
+        elif sorted(c["ans"]) != want:
+            ctx.violation(dict(sig, clause="exported-result-differs"), "%s; ProbLog reports %s, expected %s" % (desc, c["ans"], want), {"call": c})
+    cov["export_call_modes"] = nmodes
     ctx.write_evidence("exploration", cov, assumptions=["floats on the quarter grid only (exactly representable)"])
 
 
@@ -103,6 +123,14 @@ def replay(ctx, path):
     with open(path) as f:
         d = json.load(f)
     c = d["case"]
+    if "call" in c:
+        want = c["call"]
+        for x in pl.run_local("export_modes", uid=2)["calls"]:
+            if (x["f"], x["in"], x["bound"]) == (want["f"], want["in"], want["bound"]):
+                print(x)
+        ctx.evaluations = 1
+        ctx.write_evidence("exploration", {"evaluations": 1, "distinct_nontrivial": 0, "rule": "replay (prints)", "samples": [c]})
+        return
     o = pl.run_local("pypl_roundtrip", values=[{"id": 0, "v": c["v"]}], via_export=(c["via"] == "export"))["results"][0]
     print(c, o)
     j = tlc.judge_batch("JudgePyPl", [{"id": 0, "v": c["v"], "out": o["out"], "ok": o["ok"]}], nproc=1)[0]
